@@ -273,7 +273,7 @@ func (u *memUp) ExchangeContext(ctx context.Context, m []byte) (*[]byte, error) 
 
 	switch cmd.outcome {
 	case oNoErr, oNX, oServfail, oRefused:
-		b, err := buildReply(inv.snap, rcodeOf(cmd.outcome), inv.marker)
+		b, err := buildReply(c.want, rcodeOf(cmd.outcome), inv.marker)
 		if err != nil {
 			rep.Inconclusive("harness could not build a reply: %v", err)
 			return nil, errScripted
@@ -282,7 +282,7 @@ func (u *memUp) ExchangeContext(ctx context.Context, m []byte) (*[]byte, error) 
 		copy(*bp, b)
 		return bp, nil
 	case oGarbage:
-		b := garbage(cmd.garbage, inv.snap)
+		b := garbage(cmd.garbage, c.want)
 		bp := pool.GetBuf(len(b))
 		copy(*bp, b)
 		return bp, nil
@@ -468,6 +468,12 @@ var fastFail atomic.Bool
 func noteViolation() { fastFail.Store(true) }
 
 var fastClass sync.Map
+
+// abortRun: helper goroutines are stuck for good; skip the remaining cases.
+var (
+	abortRun atomic.Bool
+	stuckN   atomic.Int64
+)
 
 func wd(class string, normal time.Duration) time.Duration {
 	if _, ok := fastClass.Load(class); ok {
@@ -772,6 +778,11 @@ func runCase(cd *caseDesc, fwd *fastforward.Forward, ups []*memUp) *caseRun {
 			return true
 		}
 		wdExpired("helper-goroutine-stuck")
+		if stuckN.Add(1) >= 20 {
+			// every such case leaves goroutines behind for good; stop before the
+			// race runtime's goroutine limit turns the finding into a crash
+			abortRun.Store(true)
+		}
 		c.mu.Lock()
 		dt := c.deliveredTotal
 		c.mu.Unlock()
